@@ -1133,8 +1133,9 @@ void run_ratio1(const Case& c, Result& r)
     Spectrum sp = sym_eig_desc(Gb);
     // gap of the counterpart's problem is not observable from its rank-td Gram; recompute the reference matrix for MDS
     double gap = 1;
-    if (m == "lmds")
     {
+        // reference spectrum: for Landmark Isomap with k = N-1 the graph is complete and the geodesics are the distances
+        // themselves, so the MDS matrix gives the gap; with k < N-1 any difference is reported under the directed-graph key
         Mat B = -0.5 * double_center(s.cb->distance_matrix().array().square().matrix());
         Spectrum sb = sym_eig_desc(B);
         gap = rel_gap_desc(sb.vals, s.td);
@@ -1144,8 +1145,6 @@ void run_ratio1(const Case& c, Result& r)
             return;
         }
     }
-    else
-        gap = c.d("assumed_gap", 1e-3);
     double dev = rel_diff(Ga, Gb);
     r.maxnum(m + "_ratio1_dev", dev);
     if (gap < 1e-6)
